@@ -14,52 +14,164 @@ def CountsSound (m : CoinMap) : Prop :=
   (m.coins.map (·.1)).Nodup ∧ (m.counts.map (·.1)).Nodup ∧
   (∀ a, m.coinCount a = (m.coins.filter fun e => e.2.coinData.covhash = a).length) ∧ (∀ e ∈ m.counts, e.2 ≠ 0)
 
-/-- what is assumed of the state a batch is applied to — all of it holds of states reachable from a genesis
-    whose per-denomination supply stays below 2^127 -/
+theorem CountsSound_iff (m : CoinMap) : CountsSound m ↔ CountsOk m := Iff.rfl
+
+/-- the largest real DOSC reward a proof of difficulty `d` can earn against a previous DOSC speed `ds`
+    (coin age 1, TIP-910 work and speed factors; before saturation to a u128) -/
+def maxDoscReward (d ds : Nat) : Nat :=
+  (TIP910_WORK_FACTOR * 2 ^ d) * (TIP910_SPEED_FACTOR * 2 ^ d) * MICRO_CONVERTER / (ds ^ 2 * REWARD_DIVISOR)
+
+/-- what is assumed of the state a batch is applied to — everything but `powTotal`, `weights` and
+    `rewardFits` (explicitly excluded findings) holds of states reachable from a genesis whose
+    per-denomination supply stays below 2^127 -/
 structure ApplyPre (env : Env) (s : State) (txs : List Tx) : Prop where
   counts : CountsSound s.coins
-  /-- the coins the batch creates are new, and distinct transactions have distinct hashes -/
+  /-- the coins the batch creates are new -/
   fresh : ∀ t ∈ txs, ∀ i, s.coins.getCoin ⟨t.hash, i⟩ = none
-  hashes : (txs.map (·.hash)).Nodup
-  markersApart : ∀ t ∈ txs, ∀ u ∈ txs, env.fdp t.hash ≠ u.hash
   /-- no coin is from the future; all coin values together with everything the batch creates stay below 2^128
       (supply bound), so no sum of spent coins overflows -/
   heights : ∀ id c, s.coins.getCoin id = some c → c.height ≤ s.height
   bounded : (s.coins.coins.map (·.2.coinData.value)).sum + ((txs.flatMap (·.outputs)).map (·.value)).sum ≤ U128_MAX
   /-- recorded DOSC speeds are positive (they start at 10^6 and never decrease) -/
   speeds : ∀ h hdr, s.history.get h = some hdr → 0 < hdr.doscSpeed
-  /-- the history has an entry for the previous block (every state after genesis) -/
-  prev : s.height = 0 ∨ (s.history.get (s.height - 1)).isSome
+  /-- the history only has entries for earlier blocks (a header is recorded when its block is sealed and
+      the height advances) — otherwise a DoscMint spending a coin of the current height divides by zero -/
+  historyBelow : ∀ h hdr, s.history.get h = some hdr → h < s.height
   /-- known finding F9: MelPoW verification (dependency crate) can panic on malformed proofs — excluded -/
   powTotal : ∀ a b c d, env.powOk a b c d ≠ .panics
+  /-- `melpow::Proof::verify` returns `false` for every difficulty above 100; without this the model's
+      oracle could accept a difficulty ≥ 128, for which `2u128.pow(difficulty)` overflows -/
+  powDifficulty : ∀ a b c d, env.powOk a b c d ≠ .invalid → c ≤ 100
   /-- known finding F19: the plain sum of covenant weights (dependency crate) can overflow — excluded -/
   weights : ∀ t ∈ txs, (t.covenants.map covenantWeightFromBytes).sum ≤ U128_MAX
-  /-- the inflated reward fits a u128 (the inflator grows by 1/2,000,000 per block) -/
-  inflator : microergsIter s.height ≤ MICRO_CONVERTER * 2 ^ 64
+  /-- finding (see `C09_reward_overflow_witness`): `calculate_reward` saturates at `u128::MAX` and
+      `dosc_to_erg` then multiplies by an inflator > 1 and panics.  Excluded: every difficulty the MelPoW
+      oracle accepts is so small against the previous DOSC speed that even the largest possible reward,
+      inflated, fits a u128 (for DOSC speed 10^6 this means difficulty ≤ 73 at height 1) -/
+  rewardFits : ∀ hdr, s.history.get (s.height - 1) = some hdr → ∀ a b d t, env.powOk a b d t ≠ .invalid →
+    microergsIter s.height * maxDoscReward d hdr.doscSpeed / MICRO_CONVERTER ≤ U128_MAX
 
 /-- **applying is total**: for every batch of arbitrary transactions the result is the new state or a
     rejection, never a crash -/
 theorem C09_apply_total (env : Env) (s : State) (txs : List Tx) (fb : Header) (hp : ApplyPre env s txs) :
-    ∀ c, applyBatch env s txs fb ≠ .crash c := by
-  sorry
+    ∀ c, applyBatch env s txs fb ≠ .crash c :=
+  applyBatch_noCrash env s txs fb ((CountsSound_iff _).mp hp.counts) hp.fresh hp.heights hp.bounded hp.speeds
+    hp.historyBelow hp.powTotal hp.powDifficulty hp.weights hp.rewardFits
 
 /-- the first phases never crash, whatever the state and the transactions -/
-theorem C09_load_total (s : State) (txs : List Tx) : ∀ c, loadRelevantCoins s txs ≠ .crash c := by
-  sorry
+theorem C09_load_total (s : State) (txs : List Tx) : ∀ c, loadRelevantCoins s txs ≠ .crash c :=
+  loadRelevantCoins_noCrash s txs
 
-theorem C09_stake_info_total (s : State) (txs : List Tx) : ∀ c, loadStakeInfo s txs ≠ .crash c := by
-  sorry
+theorem C09_stake_info_total (s : State) (txs : List Tx) : ∀ c, loadStakeInfo s txs ≠ .crash c :=
+  loadStakeInfo_noCrash s txs
 
 /-- covenant decoding, weighing and execution are total functions of the model (they return `Option`s);
     the script check therefore never crashes -/
 theorem C09_scripts_total (env : Env) (i : Nat) (id : CoinID) (tx : Tx) (coin : CoinDataHeight) (lh : Header) :
-    ∀ c, validateTxScripts env i id tx coin lh ≠ .crash c := by
-  sorry
+    ∀ c, validateTxScripts env i id tx coin lh ≠ .crash c :=
+  validateTxScripts_noCrash env i id tx coin lh
 
 /-- crash sites that were reachable before the `fix:` commits are unreachable now: a transaction whose MEL
     outputs plus fee overflow a u128 is rejected up front (F18) -/
 theorem C09_mel_total_guard (s : State) (txs : List Tx) (tx : Tx) (htx : tx ∈ txs) (hbad : tx.melTotalFits = false) :
-    loadRelevantCoins s txs = .reject .malformedTx := by
-  sorry
+    loadRelevantCoins s txs = .reject .malformedTx :=
+  loadRelevantCoins_malformed s txs tx htx (by simp [hbad])
+
+/-- a DoscMint without inputs never reaches `expect(inputs[0])`: the balance check has already rejected it
+    (its MEL total — at least the fee entry — has no input to match) -/
+theorem C09_doscmint_has_input (env : Env) (s : State) (lh : Header) (tx : Tx) (rel : Relevant)
+    (ns : AList Hash StakeDoc) (hk : tx.kind = .doscMint) (h : checkTxValidity env s lh tx rel ns = .ok ()) :
+    tx.inputs ≠ [] :=
+  checkTxValidity_ok_inputs (by rw [hk]; decide) h
+
+/-- `rewardFits` cannot be dropped: at height 1 with the genesis DOSC speed 10^6, a TIP-910 proof of
+    difficulty 74 on a coin of age 1 has speed 100·2^74; its reward saturates at `u128::MAX`, and inflating
+    that by 1000001/1000000 panics in `dosc_to_erg` -/
+theorem C09_reward_overflow_witness :
+    computeDoscmintSpeed true 74 1 0 = .ok (100 * 2 ^ 74) ∧
+    calculateReward (100 * 2 ^ 74) 1000000 74 true = .ok U128_MAX ∧
+    doscToErg 1 U128_MAX = .crash "melmint.rs: dosc inflated so much it doesn't fit into a u128" :=
+  ⟨rfl, rfl, rfl⟩
+
+/-- … and the overflow is reachable through `validateDoscmint` (hence `applyBatch`) on any non-mainnet
+    state at height 1 once the MelPoW oracle accepts a difficulty-74 proof: `powDifficulty` alone does not
+    exclude it -/
+theorem C09_doscmint_reward_crash (env : Env) (s : State) (rel : Relevant) (tx : Tx) (id : CoinID)
+    (rest : List CoinID) (coin : CoinDataHeight) (hdr : Header)
+    (hnet : s.network ≠ .mainnet) (hheight : s.height = 1) (hhist : s.history = [(0, hdr)])
+    (hds : hdr.doscSpeed = 1000000)
+    (hin : tx.inputs = id :: rest) (hrel : rel.get id = some coin) (hch : coin.height = 0)
+    (hd : tx.powDifficulty = some 74) (hparse : tx.powProofParses = true)
+    (hpow : env.powOk (env.hdrHash hdr) id 74 tx.hash = .tip910) :
+    validateDoscmint env s rel tx = .crash "melmint.rs: dosc inflated so much it doesn't fit into a u128" := by
+  unfold validateDoscmint
+  rw [hin]
+  have w1 := C09_reward_overflow_witness.1
+  have w2 := C09_reward_overflow_witness.2.1
+  have w3 := C09_reward_overflow_witness.2.2
+  simp only [hrel, hch, hheight, hhist, AList.get, hd, hparse]
+  simp only [if_true, hpow, decide_true, w1, Outcome.ok_bind_c09]
+  rw [hds, w2, Outcome.ok_bind_c09, w3]
+  simp [hnet, Outcome.bind]
+
+/-- `powDifficulty` cannot be dropped: an oracle accepting difficulty 128 makes `2u128.pow` overflow -/
+theorem C09_doscmint_difficulty_crash (env : Env) (s : State) (rel : Relevant) (tx : Tx) (id : CoinID)
+    (rest : List CoinID) (coin : CoinDataHeight) (hdr : Header)
+    (hnet : s.network ≠ .mainnet) (hheight : s.height = 1) (hhist : s.history = [(0, hdr)])
+    (hin : tx.inputs = id :: rest) (hrel : rel.get id = some coin) (hch : coin.height = 0)
+    (hd : tx.powDifficulty = some 128) (hparse : tx.powProofParses = true)
+    (hpow : env.powOk (env.hdrHash hdr) id 128 tx.hash = .legacy) :
+    validateDoscmint env s rel tx = .crash "applytx.rs: 2u128.pow overflow" := by
+  unfold validateDoscmint
+  rw [hin]
+  simp only [hrel, hch, hheight, hhist, AList.get, hd, hparse]
+  simp only [if_true, hpow]
+  simp [hnet, Outcome.bind, computeDoscmintSpeed]
+
+/-- `historyBelow` cannot be dropped: a history entry at the current height lets a DoscMint spend a coin of
+    age 0, and the speed computation divides by zero -/
+theorem C09_doscmint_same_height_crash (env : Env) (s : State) (rel : Relevant) (tx : Tx) (id : CoinID)
+    (rest : List CoinID) (coin : CoinDataHeight) (hdr : Header)
+    (hnet : s.network ≠ .mainnet) (hheight : s.height = 1) (hhist : s.history = [(1, hdr)])
+    (hin : tx.inputs = id :: rest) (hrel : rel.get id = some coin) (hch : coin.height = 1)
+    (hd : tx.powDifficulty = some 10) (hparse : tx.powProofParses = true)
+    (hpow : env.powOk (env.hdrHash hdr) id 10 tx.hash = .legacy) :
+    validateDoscmint env s rel tx = .crash "applytx.rs: division by zero" := by
+  unfold validateDoscmint
+  rw [hin]
+  simp only [hrel, hch, hheight, hhist, AList.get, hd, hparse]
+  simp only [if_true, hpow]
+  simp [hnet, Outcome.bind, computeDoscmintSpeed]
+
+/-- … while difficulty 73 under the same circumstances is fine -/
+theorem C09_reward_fits_example : microergsIter 1 * maxDoscReward 73 1000000 / MICRO_CONVERTER ≤ U128_MAX := by
+  decide
+
+/-- the assumptions are satisfiable: an empty state and an oracle that accepts no proof -/
+theorem C09_pre_nonvacuous (env : Env) (s : State) (hc : s.coins = {}) (hh : s.history = [])
+    (hpow : ∀ a b c d, env.powOk a b c d = .invalid) : ApplyPre env s [] where
+  counts := by rw [hc]; exact ⟨List.nodup_nil, List.nodup_nil, fun a => rfl, fun e he => by cases he⟩
+  fresh := fun t ht => by cases ht
+  heights := fun id c h => by rw [hc] at h; cases h
+  bounded := by rw [hc]; decide
+  speeds := fun h hdr hg => by rw [hh] at hg; cases hg
+  historyBelow := fun h hdr hg => by rw [hh] at hg; cases hg
+  powTotal := fun a b c d => by rw [hpow]; decide
+  powDifficulty := fun a b c d h => absurd (hpow a b c d) h
+  weights := fun t ht => by cases ht
+  rewardFits := fun hdr _ a b d t h => absurd (hpow a b d t) h
 
 end Mel
+
+#print axioms Mel.C09_apply_total
+#print axioms Mel.C09_load_total
+#print axioms Mel.C09_stake_info_total
+#print axioms Mel.C09_scripts_total
+#print axioms Mel.C09_mel_total_guard
+#print axioms Mel.C09_doscmint_has_input
+#print axioms Mel.C09_reward_overflow_witness
+#print axioms Mel.C09_doscmint_reward_crash
+#print axioms Mel.C09_doscmint_difficulty_crash
+#print axioms Mel.C09_doscmint_same_height_crash
+#print axioms Mel.C09_reward_fits_example
+#print axioms Mel.C09_pre_nonvacuous
